@@ -17,7 +17,18 @@ class C16(core.Check):
             'recording stubs for text embedder, image embedder and tokenizer in both output formats (1-3 keys, fixed or '
             'ragged token widths); 60% through the mapper classes directly, 40% through Dataset(...).materialize() with '
             '1-3 text columns; a case is non-trivial when it has >= 2 rows and (a missing cell or >= 2 calls); distinct = '
-            'distinct case hash')
+            'distinct case hash. Hardening families: string pool with trailing / embedded NUL, sentinel look-alikes ("-1", '
+            '"nan", "None", "<NA>", "NaT"), separators / newlines inside values, case pairs and prefixes; numpy.float64 nan '
+            'as a missing cell; series that are strided views of longer series, big-int / float index labels; tokenizer stubs '
+            'whose per-sentence (per-call) mappings enumerate their keys in a different order per sentence (rev / rot), '
+            'returned as dict / OrderedDict / UserDict / MappingProxyType; embedder outputs in float32 / float64 / int64; '
+            '8% histories of ONE mapper object over 2-3 series (same or other text) with every result read only after the '
+            'last call and the series compared with identically built twins; 6% Datasets with ONE config object (one stub) '
+            'for all columns of the stype, columns sharing raw values, other stypes (numerical / categorical / precomputed '
+            'embedding) next to the text columns, shuffled insertion orders of the frame / col_to_stype / config dicts; 2% '
+            'scale cases with one size from the stress ladder (rows up to 65 537 embed / 16 385 tokenize, number of calls, '
+            'cell length, number of text columns, number of keys, embedding / token width) combined with missing cells, '
+            'duplicates and off-default batch sizes (2, 16, 17, 64, 255-257, 1000, 1024, n-1, n, n+1, n/2, n/3)')
     partial_notes = (
         '"never a float or None" is a statement about Python objects: in the Lean model the callable\'s argument type is '
         'String by construction; the Python type of every element of every recorded call is checked on the real code',
@@ -27,10 +38,22 @@ class C16(core.Check):
 
     # ------------------------------------------------------------------ cases
     def generate(self, rng, n, tier):
+        # scale cases are limited by a volume budget per run (cells + characters), so that the thorough tier does not
+        # multiply the long inputs with its case count
+        budget = {0: 1.0e6, 1: 6.0e6, 2: 1.0e7}[self.level]
         for _ in range(n):
-            yield ck.gen_case(rng)
+            case = ck.gen_case(rng, self.level)
+            if 'scale' in case:
+                vol = ck.volume(case)
+                if vol > budget:
+                    case = ck.gen_case(rng, self.level, scale=False)
+                else:
+                    budget -= vol
+            yield case
 
     def real(self, case):
+        if case['path'] == 'history':
+            return ck.run_history(case)
         if case['path'] == 'mapper':
             col = case['cols'][0]
             ser = ck.make_series(col, case['index'], case['n'], case['iseed'])
@@ -38,12 +61,23 @@ class C16(core.Check):
         return ck.run_dataset(case)
 
     def model_requests(self, case):
+        if case.get('oracle_only'):
+            return []
         return [ck.model_request(col) for col in case['cols']]
 
     def model_outcome(self, case, replies):
+        if case.get('oracle_only'):
+            return core.SKIP_MODEL
         res = {col['name']: ck.model_col_outcome(rep) for col, rep in zip(case['cols'], replies)}
         if case['path'] == 'dataset' and any(r['out'] == 'raises' for r in res.values()):
             return 'raises'
+        if case['path'] == 'dataset' and any(c.get('ord', 'fixed') != 'fixed' for c in case['cols']):
+            for r in res.values():      # see chunk16.run_dataset: the merged dict's key order is not per column
+                if r['out'] != 'raises' and isinstance(r['out']['ok'], list):
+                    r['out'] = {'ok': sorted(r['out']['ok'], key=lambda km: km[0])}
+        if case['path'] == 'history':
+            for r in res.values():
+                r['input_intact'] = True
         return res
 
     # ------------------------------------------------------------------ direct oracle (no Lean involved)
@@ -71,6 +105,8 @@ class C16(core.Check):
             if len(flat) != n:
                 return viol('rows not covered exactly once', n, len(flat))
             # expected strings: the cell's text; a missing cell as the str() of the pandas scalar at that position
+            if r.get('input_intact') is False:
+                return viol('the input series was modified by the call', 'unchanged series', 'changed')
             ser = ck.make_series(col, case['index'], n, case['iseed'])
             for i, c in enumerate(col['cells']):
                 exp = c['s'] if 's' in c else str(ser.iloc[i])
@@ -97,13 +133,22 @@ class C16(core.Check):
                 if rows != exp_rows:
                     return viol('row i of the token tensors is not the callable\'s output for row i', exp_rows, rows)
             # metamorphic: unbatched, other batch sizes and (fixed width) the other tokenizer format agree
-            for b2 in {None, 1, n, n + 1, max(1, n - 1)} - {bs}:
+            others = {None, 1, n, n + 1, max(1, n - 1)} if n <= 300 else {None, n + 1, max(1, n - 1), 257}
+            key_sorted = case['path'] == 'dataset' and any(c.get('ord', 'fixed') != 'fixed' for c in case['cols'])
+
+            def norm(out):      # chunk16.run_dataset reports the keys of such a frame sorted
+                if key_sorted and out != 'raises' and isinstance(out['ok'], list):
+                    return {'ok': sorted(out['ok'], key=lambda km: km[0])}
+                return out
+            for b2 in others - {bs}:
                 r2 = ck.run_mapper(col, ser, bs=b2)
+                r2['out'] = norm(r2['out'])
                 if r2['out'] != r['out']:
                     return viol('batched and unbatched results differ', r['out'], {'batch_size': b2, 'out': r2['out']})
             if col['kind'] in ('tok_map', 'tok_list') and col['W'] is not None:
                 other = dict(col, kind='tok_list' if col['kind'] == 'tok_map' else 'tok_map')
                 r3 = ck.run_mapper(other, ser)
+                r3['out'] = norm(r3['out'])
                 if r3['out'] != r['out']:
                     return viol('the two tokenizer output formats assemble differently', r['out'], r3['out'])
         return None
@@ -120,13 +165,63 @@ class C16(core.Check):
 
     def classify(self, case, real):
         n = case['n']
-        labs = [f"path:{case['path']}", f"rows:{n}", f"index:{case['index']}", f"cols:{len(case['cols'])}"]
+        labs = [f"path:{case['path']}", f"rows:{n if n <= 8 else '9+'}", f"index:{case['index']}",
+                f"cols:{min(len(case['cols']), 4)}"]
+        if 'scale' in case:
+            labs.append(f"scale:{case['scale']}")
+        if case.get('oracle_only'):
+            labs.append('oracle-only')
+
+        def size(what, v):
+            for t in (65537, 16385, 4097, 1025, 257, 17):
+                if v >= t:
+                    labs.append(f'scale:{what}:{t}+')
+                    return
+        size('rows', n)
+        size('columns', len(case['cols']))
+        if case.get('shared'):
+            labs.append('alias:one-config-for-all-columns')
+        if case['path'] == 'history':
+            labs.append('history:one-mapper-many-series')
+            labs.append('alias:results-read-after-later-call')
+        for x in case.get('extra', []):
+            labs.append(f'config:extra-stype:{x}')
+        if 'order' in case:
+            labs.append('config:dict-orders-shuffled')
+        if len(case['cols']) > 1 and any(a['cells'] == b['cells'] and a is not b
+                                         for a in case['cols'][:3] for b in case['cols'][:3]):
+            labs.append('alias:columns-share-raw-values')
         for col in case['cols']:
             bs = col['bs']
             rel = ('none' if bs is None else 'zero' if bs == 0 else 'one' if bs == 1 and n > 1 else
                    'gt_n' if bs > n else 'eq_n' if bs == n else 'divides' if n % bs == 0 else
                    'rem1' if n % bs == 1 else 'rem')
             labs += [f"kind:{col['kind']}", f"dtype:{col['dtype']}", f"bs:{rel}"]
+            if col is not case['cols'][0] and len(case['cols']) > 4:
+                continue        # many-column frames: per-column labels of the first column only
+            if col.get('ord', 'fixed') != 'fixed':
+                labs.append(f"tokout:key-order:{col['ord']}")
+            if col.get('mtype', 'dict') != 'dict':
+                labs.append(f"tokout:mapping-type:{col['mtype']}")
+            if col.get('odt', 'f32') != 'f32':
+                labs.append(f"embout:dtype:{col['odt']}")
+            if any(c.get('np') for c in col['cells']):
+                labs.append('missing:numpy-nan')
+            txt = [c['s'] for c in col['cells'] if 's' in c]
+            if any(t.endswith('\x00') for t in txt):
+                labs.append('value:trailing-NUL')
+            if any(t in ('-1', 'nan', 'None', '<NA>', 'NaT', '-1.0') for t in txt):
+                labs.append('value:sentinel-look-alike')
+            if len(set(txt)) < len(txt):
+                labs.append('value:duplicate-texts')
+            size('cell-length', max([len(t) for t in txt], default=0))
+            if 'bs' in col and col['bs']:
+                size('batch-size', col['bs'])
+            if col['kind'].startswith('tok'):
+                size('keys', len(col['keys']))
+                size('width', col['W'] or 0)
+            else:
+                size('width', col['D'])
             for m in sorted({c['m'] for c in col['cells'] if 'm' in c}):
                 labs.append(f"missing:{col['dtype']}/{m}")
             if col['kind'].startswith('tok'):
@@ -135,6 +230,7 @@ class C16(core.Check):
             labs.append('outcome:' + ('raises' if r == 'raises' or r['out'] == 'raises' else 'ok'))
             if r != 'raises':
                 labs.append(f"calls:{min(len(r['calls']), 5)}")
+                size('calls', len(r['calls']))
         return labs
 
     def extra_checks(self, rng, tier, report):
